@@ -200,23 +200,38 @@ Theorem c17_header_end_equiv :
 Proof. intros h. split; [apply w_header_norm|]. split; [apply norm_header_id|apply norm_header_idem]. Qed.
 Print Assumptions c17_header_end_equiv.
 
-(* ---- fai and crai TEXT layouts: tab-separated decimal fields, LF-terminated lines; the readers
-   read each line into a UTF-8 String, drop the LF (and a CR before it), split on tabs and parse
-   the fields.  fai: any list of records whose names are valid UTF-8 without TAB and LF reads back
-   equal (names that are not valid UTF-8 do not: c17_fai_non_utf8_line_rejected, the known finding
-   fai-non-utf8-name).  crai (the text inside the gzip member; gzip itself is not modelled): any
-   list of records with reference ids up to i32::MAX and positions >= 1 reads back equal. ---- *)
+(* ---- fai and crai TEXT layouts: tab-separated decimal fields, LF-terminated lines.  The crai
+   reader reads each line into a UTF-8 String, the fai reader (since the `fix:` commit 24986d3) as
+   bytes; both drop the LF (and a CR before it), split on tabs and parse the fields.  fai: any list
+   of records whose names are byte strings without TAB and LF -- valid UTF-8 or not -- reads back
+   equal (fai_ok unfolds to: no TAB, no LF in the name; fields within u64; line_bases, line_width
+   >= 1); the numeric fields are still text (c17_fai_non_utf8_numeric_rejected).  crai (the text
+   inside the gzip member; gzip itself is not modelled): any list of records with reference ids up
+   to i32::MAX and positions >= 1 reads back equal. ---- *)
 From NV Require Import Index.TextIndex Index.TextIndexProofs.
 
 Theorem c17_fai_roundtrip : forall l, Forall fai_ok l -> read_fai (w_fai l) = Some l.
 Proof. exact fai_roundtrip. Qed.
 Print Assumptions c17_fai_roundtrip.
 
-Theorem c17_fai_non_utf8_line_rejected :
-  forall r rest, ~ In LF (f_name r) -> utf8_valid (fai_line r) = false ->
-    read_fai (w_fai (r :: rest)) = None.
-Proof. exact fai_non_utf8_line_rejected. Qed.
-Print Assumptions c17_fai_non_utf8_line_rejected.
+(* the former known finding fai-non-utf8-name, now positive *)
+Theorem c17_fai_non_utf8_name_roundtrip :
+  forall r rest, utf8_valid (f_name r) = false -> Forall fai_ok (r :: rest) ->
+    read_fai (w_fai (r :: rest)) = Some (r :: rest).
+Proof. exact fai_non_utf8_name_roundtrip. Qed.
+Print Assumptions c17_fai_non_utf8_name_roundtrip.
+
+Theorem c17_fai_non_utf8_numeric_rejected :
+  forall name f rest, ~ In TAB name -> ~ In TAB f -> utf8_valid f = false ->
+    parse_fai_rec (name ++ TAB :: f ++ TAB :: rest) = None.
+Proof. exact fai_non_utf8_numeric_rejected. Qed.
+Print Assumptions c17_fai_non_utf8_numeric_rejected.
+
+(* the from_utf8 step of the fai reader's numeric fields never decides alone *)
+Theorem c17_fai_numeric_field_utf8_implied :
+  forall s, parse_u64_bytes s = parse_u64 s /\ parse_nz_u64_bytes s = parse_nz_u64 s.
+Proof. intros s. split; [apply parse_u64_bytes_eq|apply parse_nz_u64_bytes_eq]. Qed.
+Print Assumptions c17_fai_numeric_field_utf8_implied.
 
 Theorem c17_crai_roundtrip : forall l, Forall crai_ok l -> read_crai (w_crai l) = Some l.
 Proof. exact crai_roundtrip. Qed.
@@ -224,8 +239,13 @@ Print Assumptions c17_crai_roundtrip.
 
 Example c17_fai_example :
   let l := [mkfai [99; 104; 114; 195; 169; 13] 1000 6 60 61; mkfai [] 0 18446744073709551615 1 1] in
-  read_fai (w_fai l) = Some l /\ read_fai (w_fai [mkfai [255] 1 1 1 1]) = None.
-Proof. cbv zeta. split; vm_compute; reflexivity. Qed.
+  read_fai (w_fai l) = Some l /\
+  (* the witness of the former finding: a name that is not UTF-8 *)
+  utf8_valid [255] = false /\ read_fai (w_fai [mkfai [255] 1 1 1 1]) = Some [mkfai [255] 1 1 1 1] /\
+  (* a non-UTF-8 byte in a numeric field is still rejected; so is a non-UTF-8 crai line *)
+  read_fai [115; 9; 49; 255; 9; 49; 9; 49; 9; 49; 10] = None /\
+  read_crai [255; 9; 49; 9; 49; 9; 49; 9; 49; 9; 49; 10] = None.
+Proof. cbv zeta. repeat split; vm_compute; reflexivity. Qed.
 
 Example c17_crai_example :
   let l := [mkcrai None None 0 10 20 30; mkcrai (Some 2147483647) (Some 1) 5 18446744073709551615 0 1] in
